@@ -160,6 +160,11 @@ def normalize_slice(idx, dim):
         elif step < 0:
             if start >= dim - 1:
                 start = None
+            elif start < 0:
+                # ``indices`` clipped the start to its -1 sentinel: the slice
+                # begins before the first element and selects nothing.  Read
+                # back as a slice, -1 would mean "the last element".
+                return slice(0, 0, step)
             if stop < 0:
                 stop = None
         return slice(start, stop, step)
